@@ -1,22 +1,22 @@
-from runner import CbmcUnit, Entry
-from props.C09 import OPAQUE
+from runner import PathUnit, PathEntry
 
+LEVEL = "model_checking"
 OPS = ["operator[] write", "operator[] read/insert", "at()", "erase", "clear", "contains"]
 
 
 def units(tier):
     q = tier == "quick"
-    ns = [0, 1, 2] if q else [0, 1, 2, 3]
-    SP = "ir__ZSt27__stable_partition_adaptiveIN9__gnu_cxx17__normal_iteratorIPSt4pairIiiESt6vectorIS3_SaIS3_EEEES4_NS0_5__ops10_Iter_predIZN8rkcommon10containers7FlatMapIiiE5eraseERKiEUlRKS3_E_EElET_SL_SL_T1_T2_T0_SN_"
-    ents = [Entry("vp_main_fm_n%d_op%d" % (n, op), unwind=n + 4, timeout=900 if q else 3000, unwindset=({SP: 2 if n <= 1 else 3} if op == 3 else {}),
-                  desc="FlatMap<int,int>: one %s with a symbolic key from an arbitrary valid %d-entry state (symbolic distinct keys/values) vs. the insertion-ordered reference map" % (OPS[op], n),
-                  bounds="state size %d" % n) for n in ns for op in range(6) if not (op == 3 and n > (1 if q else 2))]
-    return [CbmcUnit("flatmap", "harness/C10_flatmap.cpp", ents, defines=["STEPS=1"], heap_max=64, opaque=OPAQUE, elem_unwind=6,
-                     assumptions=["one operation from every valid state with <= %d entries (inductive step; histories of any length within that size)" % max(ns), "int keys and values", "erase (std::stable_partition: recursion bound 2-3) only for states of <= 1 (quick) / 2 (thorough) entries: larger ones do not finish"]),
-            CbmcUnit("params", "harness/C10_flatmap.cpp", [
-                Entry("vp_main_params_get", unwind=6, timeout=1200, desc="ParameterizedObject: absent/default, set, wrong-type read (default, not queried), exact read (value, queried), reset of query status; symbolic values"),
-                ] + ([] if q else [
-                Entry("vp_main_params_retype", unwind=6, timeout=3000, desc="two names, type change under one name: one entry each, first-insertion order, old type reads default (no verdict within 1200 s in the quick tier)"),
-                Entry("vp_main_params_remove", unwind=6, timeout=3000, desc="removal keeps the rest; removing an absent name is a no-op (no verdict within 1200 s in the quick tier)")]),
-                defines=["STEPS=1"], heap_max=64, opaque=OPAQUE, object_bits=9,
-                assumptions=["names 'a','b' (libstdc++ string model), int/float values", "three fixed operation scenarios with symbolic values (not all histories)"])]
+    ns = [0, 1, 2, 3, 4] if q else [0, 1, 2, 3, 4, 5]
+    W = 600 if q else 3000
+    ents = [PathEntry("vp_main_fm_n%d_op%d" % (n, op), wall=W,
+                      desc="FlatMap<int,int>: one %s with a symbolic key from an arbitrary valid %d-entry state (symbolic pairwise-distinct keys, symbolic values) vs. the insertion-ordered reference map: size, iteration order, at_index, lookup results" % (OPS[op], n),
+                      bounds="state size %d" % n) for n in ns for op in range(6)]
+    fm = PathUnit("flatmap", "harness/C10_flatmap.cpp", ents, defines=["STEPS=1", "VP_PATH"],
+                  assumptions=["one operation from every valid state with <= %d entries (inductive step: covers histories of any length that stay within that size)" % max(ns), "int keys and values (all 2^32 values each)",
+                               "std::vector / std::stable_partition are the real libstdc++ header code; allocation never fails (stable_partition's temporary buffer always obtained)"])
+    pe = [PathEntry("vp_main_params_get", wall=W, desc="ParameterizedObject: absent/default, set, wrong-type read (default, not queried), exact read (value, queried), reset of query status; symbolic values"),
+          PathEntry("vp_main_params_retype", wall=W, desc="two names, type change under one name: one entry each, first-insertion order, old type reads default, new type reads the value"),
+          PathEntry("vp_main_params_remove", wall=W, desc="removal keeps the rest; removing an absent name is a no-op")]
+    po = PathUnit("params", "harness/C10_flatmap.cpp", pe, defines=["STEPS=1", "VP_PATH"],
+                  assumptions=["names 'a','b', int/float values; three operation scenarios with symbolic values (not all histories)", "std::string / shared_ptr / type_info comparisons are the real header code; type_info objects of built-in types synthesised (name = mangled name)"])
+    return [fm, po]
